@@ -56,11 +56,45 @@ def parse_decl(line):
 def gen_decl(rng, mode="valid", profile=None):
     """mode: valid | malformed.  profile tunes shape: 'dag' (default), 'zero' (many input-free providers),
     'ctx' (context.Context required at various depths), 'wide' (many arguments)."""
-    profile = profile or rng.choice(['dag', 'dag', 'dag', 'zero', 'ctx', 'wide', 'multi'])
+    profile = profile or rng.choice(['dag', 'dag', 'dag', 'zero', 'ctx', 'wide', 'multi', 'shared', 'shared'])
     cnt = [0]
     def mk():
         cnt[0] += 1
         return cnt[0]
+    if profile == 'shared' and mode != "valid":
+        profile = 'dag'
+    if profile == 'shared':
+        # diamonds: a few (mostly Async, sometimes ctx-taking / fallible) producers, each consumed by several consumers
+        # with mixed Async/sync marking, so that the same value is awaited from the main flow and from goroutines
+        argt = [mk() for _ in range(2)]
+        provs, prod_out, mid_out = [], [], []
+        for _ in range(rng.randint(1, 3)):
+            req = []
+            if rng.chance(0.4):
+                req.append(0)
+            if rng.chance(0.4):
+                req.append(rng.choice(argt))
+            t = mk()
+            groups = [[t]]
+            if rng.chance(0.2):
+                groups.append([mk()])
+            provs.append(dict(kind=0, a=int(rng.chance(0.8)), e=int(rng.chance(0.4)), req=req, groups=groups, sty=0, fields=[]))
+            prod_out += [g[0] for g in groups]
+        for _ in range(rng.randint(2, 5)):
+            req = [rng.choice(prod_out) for _ in range(rng.randint(1, 2))]
+            if mid_out and rng.chance(0.35):
+                req.append(rng.choice(mid_out))
+            if rng.chance(0.2):
+                req.append(rng.choice(argt))
+            t = mk()
+            provs.append(dict(kind=0, a=int(rng.chance(0.5)), e=int(rng.chance(0.25)), req=req, groups=[[t]], sty=0, fields=[]))
+            mid_out.append(t)
+        root = mk()
+        used = set(r for p in provs for r in p['req'])
+        req = [t for t in mid_out if t not in used or rng.chance(0.5)] + [t for t in prod_out if t not in used or rng.chance(0.3)]
+        provs.append(dict(kind=0, a=int(rng.chance(0.33)), e=int(rng.chance(0.2)), req=req or [mid_out[-1]], groups=[[root]], sty=0, fields=[]))
+        rng.shuffle(provs)
+        return fmt_decl(root, provs)
     nargs = 3 if profile != 'wide' else 5
     argt = [mk() for _ in range(nargs)]
     if profile == 'ctx' or rng.chance(0.15):
